@@ -189,7 +189,7 @@ static int wr_run_legs(const char *name, int nslices, wr_leg_fn fn, void *arg, d
                     char msg[512];
                     if (WIFSIGNALED(st)) snprintf(msg, sizeof(msg), "the runtime crashed (signal %d%s) while executing this case", WTERMSIG(st), WTERMSIG(st) == SIGABRT ? ": abort / failed assertion" : WTERMSIG(st) == SIGSEGV ? ": segmentation fault" : "");
                     else snprintf(msg, sizeof(msg), "worker exited with status %d while executing this case", WIFEXITED(st) ? WEXITSTATUS(st) : -1);
-                    if (WIFEXITED(st) && WEXITSTATUS(st) == 3) { broken++; fprintf(stderr, "rt: worker %d reported an internal harness error on case [%s]\n", s, legs[s]->curcase); }
+                    if ((WIFEXITED(st) && WEXITSTATUS(st) == 3) || !strncmp(legs[s]->curcase, "(worker", 7)) { broken++; fprintf(stderr, "rt: worker %d failed outside any case (%s) [%s]\n", s, msg, legs[s]->curcase); }
                     else { wr_violation(name, legs[s]->curcase, msg); viol++; }
                     legs[s]->exhaustive = 0;
                 }
@@ -197,10 +197,12 @@ static int wr_run_legs(const char *name, int nslices, wr_leg_fn fn, void *arg, d
             }
             double now = wr_now();
             if (legs[s]->progress != lastp[s]) { lastp[s] = legs[s]->progress; lastt[s] = now; }
-            else if (stall_s > 0 && now - lastt[s] > stall_s) {
+            else if (stall_s > 0 && now - lastt[s] > (strncmp(legs[s]->curcase, "(worker", 7) ? stall_s : 600)) {   /* start-up (parsec_init) may take long on a loaded machine */
                 kill(pids[s], SIGKILL); waitpid(pids[s], &st, 0); alive[s] = 0; nalive--; any = 1;
                 char msg[256]; snprintf(msg, sizeof(msg), "hang: no progress for %.0f s while executing this case (a wait call never returns)", stall_s);
-                wr_violation(name, legs[s]->curcase, msg); viol++; legs[s]->exhaustive = 0;
+                if (!strncmp(legs[s]->curcase, "(worker", 7)) { broken++; fprintf(stderr, "rt: worker %d stalled during start-up\n", s); }
+                else { wr_violation(name, legs[s]->curcase, msg); viol++; }
+                legs[s]->exhaustive = 0;
             }
         }
         if (!any) { struct timespec ts = { 0, 5000000 }; nanosleep(&ts, NULL); }
